@@ -25,7 +25,9 @@ Inductive ereq :=
 | EHttpScr (uri remote host : list Z) (split_ok : bool) (ips : list (list Z * option (list Z)))
            (o_panic : bool) (o_body : list Z) (o_logic : elogic)
 | EDump (entries : list (list Z * bool * bool * list Z * Z))
-| EGc (cutoff : Z).                                  (* one complete expiry pass of the store between two requests *)
+| EGc (cutoff : Z)                                   (* one complete expiry pass of the store between two requests *)
+| EHookSaw (views wrong : Z).                        (* of the views hooks had of a request's parameters (before and after the
+                                                        response was written), how many were not that request's own bytes *)
 
 Record ecfg := {
   e_key : list Z; e_skew : Z; e_uspoof : bool; e_hspoof : bool; e_hdrname : list Z;
@@ -83,6 +85,7 @@ Definition step (c : ecfg) (x : est) (r : ereq) : est * list Z :=
   match r with
   | EClock ns => ({| x_st := st; x_clock := ns; x_seen := x_seen x |}, [])
   | EGc T => ({| x_st := st_gc spec_if T st; x_clock := x_clock x; x_seen := x_seen x |}, [])
+  | EHookSaw _ wrong => (x, if wrong =? 0 then [] else [15])
   | EUdp ip packet macs o_panic dg lg =>
     let mac := G10.mac_of macs in
     if o_panic then (x, [1]) else
@@ -182,7 +185,7 @@ Definition chkE09 := chkE_with [2; 4; 5].
 Definition chkE02 := chkE_with [5; 6; 21; 22; 23; 24; 25; 26].
 (* C04, concurrent datagrams: every response is the one its own request calls for, and the state they leave is the
    one the requests imply (13: e.g. a peer registered under bytes that were not its request's) *)
-Definition chkE04 := chkE_with [1; 2; 4; 5; 12; 13].
+Definition chkE04 := chkE_with [1; 2; 4; 5; 12; 13; 15].
 Definition chkE08 := chkE_with [6].
 Definition chkE03 := chkE_with [31; 32; 33; 5; 6].
 (* C11: the address stored and handed out is the request's *)
